@@ -99,7 +99,7 @@ def job_sample(j):
     return {"iso3": j["iso3"], "title": j.get("title"), "options": {k: o[k] for k in workload.FAMILIES if k in o}, "extra": extra}
 
 
-def execute(spec, prop, monitor, nontrivial_fn, end_of_history=None, capture=True, strict_status=False):
+def execute(spec, prop, monitor, nontrivial_fn, end_of_history=None, capture=True, strict_status=False, first_model=False):
     rng = core.Rng("exec", prop, spec["h"], spec.get("salt", 0))
     log = core.EventLog()
     d = world.enter_history("%s-%s" % (prop.lower(), spec["h"]))
@@ -111,6 +111,7 @@ def execute(spec, prop, monitor, nontrivial_fn, end_of_history=None, capture=Tru
         with engine_p.Sim(rng, log, solver_mode=spec.get("solver", "cbc"), capture=capture) as sim:
             for s in spec.get("buggify", []):
                 sim.cap.buggify[s] = True
+            sim.cap.capture_first_model = first_model
             for i, job in enumerate(spec["jobs"]):
                 fl = spec.get("faults", {}).get(str(i))
                 t = sim.run_job(job, faults=fl)
